@@ -244,6 +244,13 @@ def check(prop, ev, bounds=None, cvc5_cross=False):
             elif role.endswith(":closure-body-effects-reach-the-state"):
                 import typeflowlemmas
                 res = [(a, b, {}) for a, b in typeflowlemmas.closure_battery()]
+            elif role == "C06:Return:carries-the-value-of-its-expression":
+                S3 = lambda x: {"Array": [{"Bytes": x}] * 3}                                                       # noqa: E731
+                res = [({"source": "fallback = \"n/a\"\n.r = map_values([1, 2, 3]) -> |_v| { return fallback }\n.after = fallback\n", "event": {}},
+                        {"outcome": "ok", "event_eq": {"r": S3("n/a"), "after": {"Bytes": "n/a"}}}, {}),
+                       ({"source": "fallback = \"n/a\"\n.r = map_values({\"a\": 1, \"b\": 2}) -> |_v| { return fallback }\n.after = fallback\n", "event": {}},
+                        {"outcome": "ok", "event_eq": {"r": {"Object": {"a": {"Bytes": "n/a"}, "b": {"Bytes": "n/a"}}}, "after": {"Bytes": "n/a"}}}, {}),
+                       ({"source": "x = 5\n.before = true\nreturn x\n", "event": {}}, {"outcome": "ok", "event_has": ["before"]}, {})]
             elif role.endswith(":every-variable-carries-the-binding-of-the-code-that-ran"):
                 import envlemmas
                 res = [(a, b, {}) for a, b in envlemmas.battery()]
